@@ -25,6 +25,11 @@ func runC02(c *Ctx) {
 	R.Rule("C02.R4", "bare elements: in the StartTag and SelfClosingTag arms a tag is written only if an attribute survived or allowNoAttrs(token.Data); allowNoAttrs returns true only across a lookup in the bare-element set or a MatchString of a registered bare-element pattern on its argument")
 	R.Rule("C02.R5", "argument provenance: sanitizeAttrs is called with (token.Data, token.Attr, rules) where rules is the value found in elsAndAttrs[token.Data] or returned by matchRegex(token.Data), and its result is stored back into token.Attr")
 	R.Rule("C02.R7", "each incoming attribute is kept at most once: no path through one iteration of the filter loop appends twice")
+	R.Rule("C02.R10", "a policy's set of elements allowed without attributes is its own (= C17.R4, cited): the map installed in that field is freshly made by the storing function — a default table shared between policies would let AllowNoAttrs() on one policy allow bare elements in all of them")
+	if F10 := model.FindFields(c.P); F10 != nil {
+		bare := F10.Get("bareSet")
+		freshTables(c, "C02.R10", func(f string) bool { return f == bare }, 1)
+	}
 	R.Rule("C02.R9", "the rules merged for one tag are that tag's own (= C01.R3, cited): matchRegex returns a map allocated by the call — merging pattern rules into a map taken from the policy would attach one pattern's attribute rules to other elements for the rest of the policy's life")
 	if mr := c.P.Func(load.ModPath, "(*Policy).matchRegex"); mr != nil {
 		if sc9 := newSC(c, "C02.R9"); sc9 != nil {
